@@ -357,6 +357,31 @@ def build_catalogue():
     op("tms.roundtrip", "parse")(lambda: ((lambda: (HEX("000ea00000840d000a00540045005300"),)), (lambda d: _tms(TextMessagingService, d))))
     op("ars.roundtrip", "parse")(lambda: ((lambda: (HEX("0010F5000231310939393939393939393900"),)), (lambda d: AutomaticRegistrationService.from_bytes(d).as_bytes())))
     op("lp.default_ctor_gps")(lambda: ((lambda: ()), (lambda: _lp_default(LocationProtocol))))
+    # ---- calls that fail (wrong length / wrong type): the error is the stable outcome, and whatever state the failed call leaves
+    #      behind must not show in the next valid call (all pairs (failing, valid) are part of the pair enumeration)
+    op("fail.bptc.encode_95", "shared")(lambda: ((lambda: (ba(M96[:95]),)), (lambda b: BPTC19696.encode(b))))
+    op("fail.bptc.decode_195", "shared")(lambda: ((lambda: (BPTC19696.encode(ba(M96))[:195],)), (lambda e: BPTC19696.deinterleave_data_bits(e, True))))
+    op("fail.bptc.repair_wrong_type", "shared")(lambda: ((lambda: (bytes(25),)), (lambda e: BPTC19696.repair_if_necessary(e))))
+    op("fail.trellis.encode_143", "shared")(lambda: ((lambda: (ba(M144[:143]),)), (lambda b: Trellis34.encode(b))))
+    op("fail.trellis.decode_bad_point", "shared")(lambda: ((lambda: (~Trellis34.encode(ba(M144)),)), (lambda e: Trellis34.decode(e))))
+    op("fail.vbptc128.encode_71", "shared")(lambda: ((lambda: (ba((MSG_A + MSG_B)[:71]),)), (lambda b: VBPTC12873.encode(b))))
+    op("fail.vbptc68.encode_27", "shared")(lambda: ((lambda: (ba(MSG_A[:27]),)), (lambda b: VBPTC6828.encode(b))))
+    op("fail.hamming.generate_wrong_len", "shared")(lambda: ((lambda: (ba(MSG_A[:10]),)), (lambda b: Hamming15113.generate(b))))
+    op("fail.hamming.check_wrong_len", "shared")(lambda: ((lambda: (ba(MSG_A[:14]),)), (lambda b: Hamming15113.check_and_correct(b))))
+    op("fail.rs.generate_8_octets", "shared")(lambda: ((lambda: (bytes(range(8)), b"\x96\x96\x96")), (lambda d, m: ReedSolomon1294.generate(d, m))))
+    op("fail.crc.bytes_instead_of_bits", "shared")(lambda: ((lambda: (b"\x01\x02\x03",)), (lambda d: CRC8.calculate(d))))
+    op("fail.crc9.bad_crc32_length", "shared")(lambda: ((lambda: (b"\x11\x22\x33\x44\x55\x66", b"\xde\xad\xbe")), (lambda d, c: CRC9.calculate_from_parts(d, 3, CrcMasks.Rate12DataContinuation, c))))
+    op("fail.crc16.check_out_of_range", "shared")(lambda: ((lambda: (HEX("023a2337fc2337fe8200"),)), (lambda d: CRC16.check(d, 0x1FFFF, CrcMasks.DataHeader))))
+    op("fail.csbk.from_bits_95", "shared")(lambda: ((lambda: (ba(CSBK_PRE[:95]),)), (lambda b: CSBK.from_bits(b))))
+    op("fail.dataheader.undefined_format", "shared")(lambda: ((lambda: (ba("0000" + "1100" + "0" * 88),)), (lambda b: DataHeader.from_bits(b))))
+    op("fail.burst.from_bytes_32", "shared")(lambda: ((lambda: (BURST_D[:32],)), (lambda d: Burst.from_bytes(d))))
+    op("fail.hstrp.bad_magic", "shared")(lambda: ((lambda: (HEX("3342002000018304"),)), (lambda d: HSTRP.from_bytes(d))))
+    op("fail.hrnp.truncated", "shared")(lambda: ((lambda: (HEX("7e04000020100001001b43b5024718"),)), (lambda d: HRNP.from_bytes(d))))
+    op("fail.hdap.unknown_service", "shared")(lambda: ((lambda: (HEX("7f000100010000"),)), (lambda d: HDAP.from_bytes(d))))
+    op("fail.mbxml.truncated", "shared")(lambda: ((lambda: (LR[:-3],)), (lambda d: MBXML.from_bytes(d))))
+    op("fail.mbxml.uintvar_too_big", "shared")(lambda: ((lambda: ()), (lambda: MBXML.write_uintvar(2 ** 40))))
+    op("fail.tms.truncated", "shared")(lambda: ((lambda: (HEX("000ea00000"),)), (lambda d: TextMessagingService.from_bytes(d))))
+    op("fail.ars.truncated", "shared")(lambda: ((lambda: (HEX("0010F50002313109"),)), (lambda d: AutomaticRegistrationService.from_bytes(d))))
     _ = numpy
 
 
@@ -483,12 +508,50 @@ def w_sequences(task):
     return acc
 
 
+def w_pairs_from(first):
+    """all pairs (first, j): `first` runs once in a child forked from the pristine worker, every j in its own grandchild"""
+    r, w = os.pipe()
+    pid = os.fork()
+    if pid == 0:
+        try:
+            os.close(r)
+            acc = Acc()
+            res_i = run_op(first)
+            if not res_i[1]:
+                acc.violation("argument_buffer_modified:" + first, {"sequence": [first]}, f"{first} changed a buffer passed to it")
+            for j in OPS:
+                res = run_sequence_isolated([j])  # forked from this child: state = after `first`
+                case = {"sequence": [first, j]}
+                if len(res) != 1 or str(res[0][0]).startswith("CHILD-CRASH"):
+                    acc.violation("child_crashed", {**case, "detail": str(res[0][0])[:200]})
+                else:
+                    if not res[0][1]:
+                        acc.violation("argument_buffer_modified:" + j, case, f"{j} changed a buffer passed to it")
+                    if res[0][0] != FRESH[j][0]:
+                        acc.violation(f"result_depends_on_history:{j}", {**case, "fresh": FRESH[j][2], "after_history": res[0][2]},
+                                      f"{j} returns a different result after {[first]} than in a fresh interpreter state")
+                acc.case(nontrivial=True, calls=2, outcome=res[0][2] if res else "crash", sample=case if len(acc.samples) < 1 else None)
+            data = pickle.dumps(acc)
+        except BaseException as e:  # noqa: BLE001
+            a2 = Acc()
+            a2.violation("child_crashed", {"sequence": [first], "detail": repr(e)})
+            data = pickle.dumps(a2)
+        with os.fdopen(w, "wb") as f:
+            f.write(data)
+        os._exit(0)
+    os.close(w)
+    with os.fdopen(r, "rb") as f:
+        data = f.read()
+    os.waitpid(pid, 0)
+    return pickle.loads(data)
+
+
 def dump_fresh():
     """entry point for the brand-new-interpreter cross-check: print fresh digests as JSON"""
     build_catalogue()
     out = {}
-    for n in OPS:
-        r = run_sequence_isolated([n])
+    names = list(OPS)
+    for n, r in zip(names, par.pmap(lambda n: run_sequence_isolated([n]), names, 4)):
         out[n] = [r[0][0], r[0][1], r[0][2]]
     print("FRESH-JSON:" + json.dumps(out))
 
@@ -532,15 +595,18 @@ def run(only=None):
     # ---- fresh reference -----------------------------------------------------------------------------
     s = rep.sub("fresh_reference", "every op alone in a forked child of the pristine parent, compared with a brand-new interpreter (other PYTHONHASHSEED) "
                                    "and with two fresh interpreters running under different fake dates/clocks")
-    for n in names:
-        r = run_sequence_isolated([n])[0]
+    for n, r in zip(names, par.pmap(lambda n: run_sequence_isolated([n])[0], names)):
         FRESH[n] = r
         if not r[1]:
             s.violation("argument_buffer_modified:" + n, {"sequence": [n]}, f"{n} changed a buffer passed to it")
         s.case(nontrivial=True, outcome=r[2], sample={"op": n, "result": r[2]} if len(s.samples) < 2 else None)
-    others = [("new_interpreter", fresh_in_new_interpreter()),
-              ("fake_date_2001", fresh_in_new_interpreter((2001, 2, 3, 981_000_000.0, 11))),
-              ("fake_date_2038", fresh_in_new_interpreter((2038, 11, 30, 2_174_000_000.0, 12)))]
+    import concurrent.futures as _cf
+
+    with _cf.ThreadPoolExecutor(max_workers=3) as ex:
+        futs = [("new_interpreter", ex.submit(fresh_in_new_interpreter)),
+                ("fake_date_2001", ex.submit(fresh_in_new_interpreter, (2001, 2, 3, 981_000_000.0, 11))),
+                ("fake_date_2038", ex.submit(fresh_in_new_interpreter, (2038, 11, 30, 2_174_000_000.0, 12)))]
+        others = [(label, f.result()) for label, f in futs]
     for label, ref in others:
         for n in names:
             flags = OPS[n][2]
@@ -555,8 +621,7 @@ def run(only=None):
     # ---- seams: clock / randomness independence of parsing -------------------------------------------
     s = rep.sub("clock_randomness_independence", "every op alone under two seam settings (clock, token/uuid counters, random seed); parse ops must return the fresh digest")
     for seam in ((1_000_000_000.0, 7), (1_900_000_000.5, 123456)):
-        for n in names:
-            r = run_sequence_isolated([n], seam=seam)[0]
+        for n, r in zip(names, par.pmap(lambda n, seam=seam: run_sequence_isolated([n], seam=seam)[0], names)):
             if r[0] != FRESH[n][0] and "parse" in OPS[n][2]:
                 s.violation("parse_depends_on_clock_or_randomness:" + n, {"op": n, "seam": list(seam)})
             s.case(nontrivial=True, outcome=r[2])
@@ -564,18 +629,21 @@ def run(only=None):
     # ---- all ordered pairs ------------------------------------------------------------------------------
     if not only or "all_ordered_pairs" in only:
         s = rep.sub("all_ordered_pairs", f"all {len(names)}^2 ordered pairs (i, j) incl. i == j, each in its own forked child; non-trivial: every pair")
-        pairs = [(a, b) for a in names for b in names]
-        s.declared = len(pairs)
-        tasks = [(c, "pairs") for c in par.split_list(pairs, 64)]
-        for acc in par.pmap(w_sequences, tasks):
+        s.declared = len(names) ** 2
+        for acc in par.pmap(w_pairs_from, names):
             s.merge(acc)
         s.done()
     # ---- triples over shared-state ops -------------------------------------------------------------------
     if not only or "shared_state_triples" in only:
         shared = [n for n in names if "shared" in OPS[n][2]]
         if not rep.thorough():
-            # quick: singleton front ends + default-argument / class-table ops
-            shared = [n for n in shared if not n.startswith(("crc7_", "crc8_", "crc9_", "crc16_", "crc32_"))] + ["crc9_table_m1", "crc16_table_m0", "crc32_bitwise_m1"]
+            # quick: the ops whose implementation holds state between calls (CRC singletons, class tables, default-argument objects,
+            # BPTC tables); the thorough tier runs all ops flagged "shared"
+            core = ["CRC8.calculate_A", "CRC8.calculate_A_padded32", "CRC9.from_parts_crc32", "CRC9.calculate_bits", "CRC16.calculate_hdr", "CRC32.calculate_odd",
+                    "crc9_table_m1", "crc16_table_m0", "rcp.default_ctor_add_setting", "rcp.default_ctor_serialise", "lrrp.get_token_with_attribute",
+                    "lrrp.get_token_plain", "burst.default_ctor_then_write", "dataheader.default_ctor_then_write", "bptc.encode", "bptc.decode_reserved_bits_set",
+                    "fail.crc.bytes_instead_of_bits", "fail.bptc.decode_195"]
+            shared = [n for n in core if n in OPS]
         s = rep.sub("shared_state_triples", f"all ordered triples over the {len(shared)} ops that touch shared state (CRC singletons, cached table, class tables, defaults)")
         triples = [(a, b, c) for a in shared for b in shared for c in shared]
         s.declared = len(triples)
